@@ -203,7 +203,11 @@ class CollisionAnswers:
         self.IkeSa = seams.M['ikesa'].IkeSa
         self.orig = self.IkeSa.process_message
         self.streak = {}
-        self.apart = bool(world.scenario.get('knobs', {}).get('pushback_apart')) and world.scenario['meta'].get('batch') == 'fifo'
+        # with one-way latency L the two retries (first loop tick after +0.3 s and after +1.7 s) are sent between 1 - L and 1 + L seconds apart, and
+        # cross again only if that is less than L: judged for L <= 0.2 s only (survey with VERIF_SEED=9, seed 9000192: L = 0.6 s, where the
+        # unchanged tree needs luck again)
+        self.apart = bool(world.scenario.get('knobs', {}).get('pushback_apart')) and world.scenario['meta'].get('batch') == 'fifo' and \
+            world.scenario['meta'].get('fifo_latency', 1.0) <= 0.2
         me = self
 
         def process_message(sa, data):
@@ -293,6 +297,16 @@ class CollisionAnswers:
                          f'a request to rekey CHILD_SA {bytes(rk["spi"]).hex()}, which the receiver does not hold (it holds '
                          f'{sorted(x.hex() for x in pre["spis"])}), was answered {notes or "with a normal reply"} instead of CHILD_SA_NOT_FOUND '
                          f'(RFC 7296 2.25.1)')
+            being_rekeyed = kind == 'child_rekey' and bytes(rk['spi']) in pre['rekeying']
+            if only(self.TF) and not busy_ike and not being_deleted and not being_rekeyed and not unknown and \
+                    st in ('ESTABLISHED', 'NEW_CHILD_REQ_SENT', 'REK_CHILD_REQ_SENT', 'DEL_CHILD_REQ_SENT', 'DPD_REQ_SENT'):
+                # RFC 7296 2.25 names the collisions that are answered TEMPORARY_FAILURE; a request that collides with nothing the receiver is
+                # doing (its own outstanding exchange concerns another CHILD_SA, or only liveness) gets its normal answer - the requester
+                # does not retry, so the refusal silently loses its trigger
+                return V('non_colliding_request_refused_temporary_failure', {'request': kind},
+                         f'a {kind} request{" for CHILD_SA " + bytes(rk["spi"]).hex() if rk is not None else ""} received in state {st} (own exchange concerns '
+                         f'{sorted(x.hex() for x in (pre["deleting"] | pre["rekeying"])) or "no CHILD_SA"}) was answered TEMPORARY_FAILURE although it '
+                         f'collides with nothing the receiver is doing')
             if being_deleted and not only(self.TF):
                 return V('collision_not_answered_temporary_failure', {'request': 'child_rekey_while_deleting'},
                          f'a request to rekey the CHILD_SA the receiver is deleting was answered {notes or "with a normal reply"} instead of '
@@ -339,6 +353,7 @@ def generate(seed, tier):
     if fifo:
         L = r.choice([0.003, 0.01, 0.05, 0.2, 0.6])
         sc['fate_policy'] = {'mode': 'random', 'lat_range': [L, L]}
+        sc['meta']['fifo_latency'] = L
         sc['knobs'] = {'pushback_apart': r.random() < 0.6}
     T = sc['until']
     ra = next(iter(configs.read_conf(sc['nodes']['A']['conf']).values()))
